@@ -32,6 +32,10 @@ open Pandora.C10 Pandora.Filter Pandora.Blocks
 #print axioms Pandora.C10C12.intervals_flags
 #print axioms Pandora.C10C12.intervals_flagSpec
 #print axioms Pandora.C10C12.intervals_bit11_iff
+#print axioms Pandora.IntervalRuns.borders_length
+#print axioms Pandora.IntervalRuns.cover_runs
+#print axioms Pandora.IntervalRuns.inSegments_iff
+#print axioms Pandora.C10C12.intervals_bit11_lowConfidence
 #print axioms Pandora.C10C12.intervals_other_bits
 #print axioms Pandora.C10C12.intervals_validity
 #print axioms Pandora.C10C12.intervals_border
